@@ -52,6 +52,18 @@ func c08Gen(r *rand.Rand, tier string) []Case {
 		n = 400
 	}
 	var out []Case
+	// fixed case: a grant in two denominations, the second vesting at once and locked up for long; more of the staking
+	// denomination delegated than the grant holds of it; then the second denomination spent at its boundary
+	out = append(out, Case{
+		"vgrant # k=3 off=-2 lockup=300@0:5000000,1:5000 vesting=1@0:1000000,1:5000;200@0:4000000",
+		"vtime # dt=5",
+		"vmon # k=3 path=send-b amt=S+1",
+		"vspend ? ? ? ? ? # k=3 path=delegate-msg amt=S",
+		"vmon # k=3 path=send-b amt=S+1",
+		"vmon # k=3 path=send-b amt=S",
+		"vspend ? ? ? ? ? # k=3 path=send amt=S+1",
+		"vspend ? ? ? ? ? # k=3 path=send amt=S",
+	})
 	paths := []string{"send", "multisend", "fee", "daofund", "govdeposit", "send", "fee"}
 	amts := []string{"S-1", "S+1", "S/2", "S/2", "B", "1", "1000", "S+1", "S"}
 	for i := 0; i < n; i++ {
